@@ -35,7 +35,7 @@ type caseData struct {
 
 func decodeCase(op, res string) (*caseData, error) {
 	f := strings.Fields(op)
-	if len(f) != 5 || f[0] != "C06" || f[1] != "resolve" {
+	if len(f) != 6 || f[0] != "C06" || f[1] != "resolve" {
 		return nil, fmt.Errorf("not a resolve op")
 	}
 	t, u, err := universe.NpmDecode(f[2], f[3])
@@ -384,10 +384,57 @@ func classify(oracle string, ops, res []string) string {
 		if cd.u.HasBundle() {
 			return "F-C04-npm-bundle-cycle"
 		}
-	case "E1", "T2":
+	case "E4":
+		if !latestLast(ops[0]) {
+			return "F-C06-latest-prerelease"
+		}
+		if cd.u.HasAlias() {
+			return "F-C06-alias-wrongpkg"
+		}
+	case "E1", "E2", "T2":
 		if cd.u.HasAlias() {
 			return "F-C06-alias-wrongpkg"
 		}
 	}
 	return ""
+}
+
+// latestLast mirrors DepsDev.Props.C06.LatestLast on the op line's match table:
+// in every row of client.MatchingVersions answers, if the package's single
+// `latest` version (the row for the requirement "latest", index 4) occurs in
+// the row then it is the row's last element.
+func latestLast(op string) bool {
+	f := strings.Fields(op)
+	if len(f) < 4 {
+		return true
+	}
+	type row struct {
+		pkg, req string
+		vs       []string
+	}
+	var rows []row
+	latest := map[string]string{}
+	for _, rec := range strings.Split(f[3], ";") {
+		p := strings.Split(rec, ":")
+		if len(p) != 4 || p[0] != "m" || p[3] == "!" || p[3] == "_" {
+			continue
+		}
+		vs := strings.Split(p[3], ",")
+		rows = append(rows, row{p[1], p[2], vs})
+		if p[2] == "4" && len(vs) == 1 {
+			latest[p[1]] = vs[0]
+		}
+	}
+	for _, r := range rows {
+		l, ok := latest[r.pkg]
+		if !ok {
+			continue
+		}
+		for _, v := range r.vs {
+			if v == l && r.vs[len(r.vs)-1] != l {
+				return false
+			}
+		}
+	}
+	return true
 }
